@@ -828,8 +828,6 @@ async def build(context, prog: dict, case_dir: str):
     port = b.inject("in", value)
     out = b.stages(prog["stages"], port, "x")
     await wf.save(context.database)
-    if os.environ.get("VF_C16_OUTPUT_PORT"):
-        wf.output_ports["out"] = out.name
     return wf, out, vol
 
 
